@@ -37,7 +37,7 @@ def cfg(d, mode, shapes, lo=0, hi=0, n=0, orders="Free", size_st=("completed", "
         elem_st=("completed", "skipped", "failed"), drop=True, eager=False, record=False, live=False, gen=False):
     q = lambda xs: "{%s}" % ", ".join('"%s"' % x for x in xs)
     t = ["CONSTANTS D = %d  Mode = \"%s\"  Lo = %d  Hi = %d  N = %d" % (d, mode, lo, hi, n),
-         "  ShapeSet <- %s" % shapes, "  OrderSet <- %s" % orders,
+         "  ShapeSet <- %s" % shapes, "  OrderFor <- %s" % orders,
          "  SizeTermSt = %s" % q(size_st), "  ElemTermSt = %s" % q(elem_st),
          "  Drop = %s  Eager = %s  Record = %s" % tuple("TRUE" if b else "FALSE" for b in (drop, eager, record))]
     if gen:
@@ -261,47 +261,59 @@ def workflow_cases(ctx):
 
 # ------------------------------------------------------------------------------------------------
 def _tlc_jobs(ctx):
-    """(label, kind, cfg text, kwargs)"""
+    """(label, kind, cfg text, kwargs).  Few JVMs: every job is one TLC run."""
     Q = ctx.quick
     jobs = []
+    few = dict(size_st=("completed",), elem_st=("completed", "failed"))
     # exhaustive model checking
     jobs.append(("mc:d1:n<=4", "mc", cfg(1, "chained", "MCShapes", 0, 4, live=True), {}))
-    jobs.append(("mc:d2:chained:n<=2", "mc", cfg(2, "chained", "MCShapes", 0, 2, live=not Q), {}))
+    jobs.append(("mc:d2:chained:n<=2", "mc", cfg(2, "chained", "MCShapes", 0, 2, live=not Q, **(few if Q else {})), {}))
     jobs.append(("mc:d2:flat:n<=%d" % (2 if Q else 3), "mc", cfg(2, "flat", "MCShapes", 0, 2 if Q else 3), {}))
-    if Q:
-        jobs.append(("mc:d3:flat:2x2x2", "mc", cfg(3, "flat", "Rect", 2, 2, elem_st=("completed", "failed"), size_st=("completed",)), {}))
-    else:
-        jobs.append(("mc:d2:chained:n<=3", "mc", cfg(2, "chained", "MCShapes", 0, 3, size_st=("completed",), elem_st=("completed", "failed")), {}))
-        jobs.append(("mc:d3:flat:2x2x2", "mc", cfg(3, "flat", "Rect", 2, 2), {}))
-        jobs.append(("mc:d3:chained:2x2x2", "mc", cfg(3, "chained", "Rect", 2, 2, size_st=("completed",), elem_st=("completed", "failed")), {}))
+    if not Q:
+        jobs.append(("mc:d2:chained:n<=3", "mc", cfg(2, "chained", "MCShapes", 0, 3, **few), {}))
+        jobs.append(("mc:d3:flat:2x2x2", "mc", cfg(3, "flat", "Rect", 2, 2, **few), {}))
+        jobs.append(("mc:d3:chained:2x2x2", "mc", cfg(3, "chained", "Rect", 2, 2, **few), {}))
         jobs.append(("mc:d3:chained:n<=1", "mc", cfg(3, "chained", "MCShapes", 0, 1), {}))
-    # generation: all complete behaviours, depth 1
+    # generation: ALL complete behaviours, depth 1
     jobs.append(("gen:d1:n<=%d" % (3 if Q else 4), "gen",
-                 cfg(1, "chained", "MCShapes", 0, 3 if Q else 4, size_st=("completed",), elem_st=("completed", "failed"),
-                     eager=True, record=True, gen=True), {"workers": 1}))
-    jobs.append(("gen:d1:n<=2:statuses", "gen",
-                 cfg(1, "chained", "MCShapes", 0, 2, eager=True, record=True, gen=True), {"workers": 1}))
-    # structured orders, n >= 10
-    for n in ((12,) if Q else (10, 11, 12, 15)):
-        jobs.append(("gen:struct:n=%d" % n, "gen",
-                     cfg(1, "chained", "OneFlat", n=n, orders="Structured", size_st=("completed",), elem_st=("completed",),
-                         drop=Q, eager=True, record=True, gen=True), {"workers": 1}))
-    # simulation: random permutations for n >= 10 and the nested wirings
-    num = ctx.pick(25, 400)
-    for n in (10, 11, 12, 15):
-        jobs.append(("sim:d1:n=%d" % n, "sim",
-                     cfg(1, "chained", "OneFlat", n=n, size_st=("completed",), elem_st=("completed", "failed"),
-                         eager=True, record=True, gen=True), {"workers": 1, "simulate": {"num": num, "depth": 3 * n + 20}}))
-    numn = ctx.pick(60, 600)
+                 cfg(1, "chained", "MCShapes", 0, 3 if Q else 4, size_st=("completed", "skipped") if Q else ("completed",),
+                     elem_st=("completed", "failed"), eager=True, record=True, gen=True), {"workers": 1}))
+    if not Q:
+        jobs.append(("gen:d1:n<=2:statuses", "gen",
+                     cfg(1, "chained", "MCShapes", 0, 2, eager=True, record=True, gen=True), {"workers": 1}))
+    # structured orders for n >= 10: all interleavings with the size token and the terminations
+    jobs.append(("gen:struct:n>=10", "gen",
+                 cfg(1, "chained", "OneFlat" if Q else "BigFlats", n=12, orders="StructuredQ" if Q else "Structured", size_st=("completed",),
+                     elem_st=("completed",), drop=not Q, eager=True, record=True, gen=True), {"workers": 1}))
+    # simulation: random permutations for n in {10, 11, 12, 15} and the nested wirings
+    num = ctx.pick(120, 1600)
+    jobs.append(("sim:d1:n>=10", "sim", cfg(1, "chained", "BigFlats", eager=True, record=True, gen=True, **few),
+                 {"workers": 1, "simulate": {"num": num, "depth": 70}}))
+    numn = ctx.pick(80, 600)
     jobs.append(("sim:d2:chained", "sim", cfg(2, "chained", "MCShapes", 0, 3, eager=True, record=True, gen=True),
                  {"workers": 1, "simulate": {"num": numn, "depth": 120}}))
-    jobs.append(("sim:d2:flat", "sim", cfg(2, "flat", "MCShapes", 0, 4, eager=True, record=True, gen=True),
-                 {"workers": 1, "simulate": {"num": numn, "depth": 120}}))
-    jobs.append(("sim:d3:chained", "sim", cfg(3, "chained", "MCShapes", 0, 2, eager=True, record=True, gen=True),
-                 {"workers": 1, "simulate": {"num": numn, "depth": 200}}))
-    jobs.append(("sim:d3:flat", "sim", cfg(3, "flat", "MCShapes", 1, 3, eager=True, record=True, gen=True),
+    jobs.append(("sim:d3:flat", "sim", cfg(3, "flat", "MCShapes", 1, 2, eager=True, record=True, gen=True),
                  {"workers": 1, "simulate": {"num": numn // 2, "depth": 200}}))
+    jobs.append(("sim:d2:flat", "sim", cfg(2, "flat", "MCShapes", 0, 4, eager=True, record=True, gen=True),
+                 {"workers": 1, "simulate": {"num": numn // 2 if Q else numn, "depth": 120}}))
+    if not Q:
+        jobs.append(("sim:d3:chained", "sim", cfg(3, "chained", "MCShapes", 0, 2, eager=True, record=True, gen=True),
+                     {"workers": 1, "simulate": {"num": numn, "depth": 200}}))
     return jobs
+
+
+def _partial_stats(ctx, cfg_name, r):
+    """A time-boxed exhaustive run that did not finish has no final statistics line: read the last progress line
+    (TLC prints thousands separators there, which vh.tlc's parser does not accept)."""
+    import re
+    if r.timed_out and r.distinct == 0:
+        ms = re.findall(r"([\d,]+) states generated(?: \([^)]*\))?, ([\d,]+) distinct states found", r.stdout or "")
+        if ms:
+            r.generated, r.distinct = (int(x.replace(",", "")) for x in ms[-1])
+            for rec in ctx.tlc_runs:
+                if rec.get("cfg") == cfg_name:
+                    rec.update(states=r.distinct, transitions=r.generated, complete=False)
+    return r
 
 
 def _run_tlc_jobs(ctx, jobs):
@@ -318,24 +330,28 @@ def _run_tlc_jobs(ctx, jobs):
             kw.setdefault("coverage", True)
             kw.setdefault("workers", 4)
         kw.setdefault("max_heap", "3g")
-        return ctx.tlc("ScatterGather", "MC_ScatterGather", name, workdir=wd, count=False, timeout=1500, **kw)
-    with ThreadPoolExecutor(max_workers=ctx.pick(6, 5)) as ex:
+        if kind == "mc":
+            # exhaustive runs are bounded in time: on an overloaded machine a run that does not finish is recorded as
+            # an incomplete exploration (every visited state was checked), never as a failure of the check
+            kw.setdefault("allow_timeout", True)
+            kw.setdefault("timeout", ctx.pick(420, 800))
+        else:
+            kw.setdefault("timeout", 1800)
+        return _partial_stats(ctx, name, ctx.tlc("ScatterGather", "MC_ScatterGather", name, workdir=wd, count=False, **kw))
+    with ThreadPoolExecutor(max_workers=ctx.pick(8, 6)) as ex:
         results = list(ex.map(one, prepared))
     return [(p[0], p[1], r) for p, r in zip(prepared, results)]
 
 
-def run(ctx):
-    from vh.sut import sg_rigs as R
-    ctx.rule = ("TLC explores every interleaving of element/size/termination arrivals and every permutation of the elements "
-                "(exhaustively for depth 1 n<=4, depth 2 n<=3 per level, 2x2x2 depth 3); each complete behaviour it emits is "
-                "replayed arrival by arrival into a real GatherStep and the output port is compared with the model after every "
-                "arrival; a behaviour is non-trivial when it delivers at least one element or size token; whole workflows are "
-                "non-trivial when the element-wise step really reordered the elements")
+def collect(ctx):
+    """Run TLC (model checking + generation) and return the behaviours to bind: [(label, behaviour)]."""
     results = _run_tlc_jobs(ctx, _tlc_jobs(ctx))
     behaviours = []
     for label, kind, r in results:
         if kind == "mc":
-            if not r.ok:
+            if r.timed_out and r.error is None:
+                ctx.count("model_runs_incomplete(timeout)")
+            elif not r.ok:
                 # a counterexample in the model alone is never a verdict on the code: it means the model or the
                 # environment assumptions are wrong (the unchanged model passes): machinery error
                 ctx.require(False, "ScatterGather model violates %s in %s (%s)\n%s" % (r.violated, label, r.error, r.stdout[-1500:]))
@@ -346,7 +362,8 @@ def run(ctx):
                 need += ["RecvInner", "TermInner"]
             if ":flat" in label:
                 need += ["Aggregate"]
-            ctx.require_coverage(r, need)
+            if not r.timed_out:
+                ctx.require_coverage(r, need)
             ctx.count("model_states:%s" % label, r.distinct)
         else:
             ctx.require(r.error is None, "generation run %s failed: %s\n%s" % (label, r.error, r.stdout[-800:]))
@@ -360,6 +377,21 @@ def run(ctx):
                 seen.add(k)
                 behaviours.append((label, b))
             ctx.count("behaviours:%s" % label, len(seen))
+    return behaviours
+
+
+def run(ctx):
+    from vh.sut import sg_rigs as R
+    ctx.rule = ("TLC explores every interleaving of element/size/termination arrivals and every permutation of the elements "
+                "(exhaustively for depth 1 n<=4, depth 2 n<=3 per level, 2x2x2 depth 3); each complete behaviour it emits is "
+                "replayed arrival by arrival into a real GatherStep and the output port is compared with the model after every "
+                "arrival; a behaviour is non-trivial when it delivers at least one element or size token; whole workflows are "
+                "non-trivial when the element-wise step really reordered the elements")
+    behaviours = collect(ctx)
+    bind(ctx, R, behaviours)
+
+
+def bind(ctx, R, behaviours):
     ctx.exhaustive = True
 
     async def main():
